@@ -301,8 +301,15 @@ class SMCSampler(MCMCSampler):
         run_smc_loop = True
         if resumed:
             last_beta = self.history.beta[-1] if self.history.beta else beta
-            if last_beta >= 1.0:
+            if last_beta >= 1.0 or (
+                max_n_steps is not None and iterations >= max_n_steps
+            ):
                 run_smc_loop = False
+            # The rescaled minimum step is part of the loop state
+            resumed_min_step = getattr(self, "_resumed_min_step", None)
+            if self.adaptive_min_step and resumed_min_step is not None:
+                min_step = resumed_min_step
+        self._current_min_step = min_step
 
         def maybe_checkpoint(force: bool = False):
             if checkpoint_callback is None:
@@ -328,6 +335,7 @@ class SMCSampler(MCMCSampler):
                     min_step,
                     beta_tolerance=beta_tolerance,
                 )
+                self._current_min_step = min_step
                 self.history.eff_target.append(
                     self.current_target_efficiency(beta)
                 )
@@ -418,7 +426,10 @@ class SMCSampler(MCMCSampler):
         return super().build_checkpoint_state(
             samples,
             iteration,
-            meta={"beta": beta},
+            meta={
+                "beta": beta,
+                "min_step": getattr(self, "_current_min_step", None),
+            },
         )
 
     def _checkpoint_extra_state(self) -> dict:
@@ -444,6 +455,9 @@ class SMCSampler(MCMCSampler):
             beta = meta.get("beta", None)
         if beta is None:
             beta = state.get("beta", 0.0)
+        self._resumed_min_step = (
+            meta.get("min_step", None) if isinstance(meta, dict) else None
+        )
         iteration = state.get("iteration", 0)
         self.history = state.get("history", SMCHistory())
         rng_state = state.get("rng_state")
